@@ -932,6 +932,15 @@ impl Interp {
             }
         }
         out.frames = self.vt.take_frames();
+        // suspend hides the region, runs the closure and repaints: the repaint is not an ordinary request
+        // (also on a rate-limited target whose burst is used up, the bars are back when suspend returns; not
+        // judged while the terminal is made to fail)
+        if matches!(op, MOp::MpSuspend(_) | MOp::BarSuspend(..)) && paint && !self.model.bottom_ever && self.model.frame().iter().any(|l| !l.is_empty()) && out.frames.len() < 2 && { let g = self.vt.lock(); g.fault.is_none() && g.snapshots } {
+            return Err(Fail::new(
+                "suspend_not_repainted",
+                format!("{op:?} flushed {} frame(s): the region was not painted again after the closure (frame expected: {:?})", out.frames.len(), self.model.frame()),
+            ));
+        }
         if self.hidden && !matches!(op, MOp::HideMp) {
             // nothing is painted and no dropped bar leaves the list at a paint; renderings are still cached
             paint = false;
